@@ -335,7 +335,7 @@ class Run:
         hashes = set()
         labels = {}
         samples = []
-        evals = cases = excluded = 0
+        evals = cases = excluded = dbc = 0
         exhaustive = {}
         notes = {}
         for s in self.shards:
@@ -343,6 +343,7 @@ class Run:
             evals += s.get("evaluations", 0)
             cases += s.get("cases", 0)
             excluded += s.get("excluded", 0)
+            dbc += s.get("distinct_by_construction", 0)
             for k, v in (s.get("labels") or {}).items():
                 labels[k] = labels.get(k, 0) + v
             for smp in (s.get("samples") or []):
@@ -358,7 +359,7 @@ class Run:
         cov = {
             "evaluations": evals,
             "cases": cases,
-            "distinct_nontrivial": len(hashes),
+            "distinct_nontrivial": len(hashes) + dbc,
             "rule": plan.get("rule", ""),
             "samples": samples,
             "class_histogram": dict(sorted(labels.items())),
